@@ -339,7 +339,7 @@ class NF:
                 return args[0].inv()
             if name == 'powi2':
                 return args[0] * args[0]
-            return self.fn_atom(name, args, ('fcall', name) + tuple(x.key() for x in args))
+            return self.fn_atom(name, args, ('fatom', name, ', '.join(self.show(x) for x in args)))
         if h == 'i2f':
             return self(t[1])
         # everything else is an opaque atom
